@@ -98,5 +98,25 @@ pub fn fmt_concat3(p0: &str, a0: &str, p1: &str) -> (r: String)
 pub fn fmt_concat5(p0: &str, a0: &str, p1: &str, a1: &str, p2: &str) -> (r: String)
     ensures r@ == p0@ + a0@ + p1@ + a1@ + p2@
 { format!("{}{}{}{}{}", p0, a0, p1, a1, p2) }
+#[verifier::external_body]
+pub fn fmt_concat1(p0: &str) -> (r: String)
+    ensures r@ == p0@
+{ p0.to_string() }
+#[verifier::external_body]
+pub fn fmt_concat4(p0: &str, a0: &str, p1: &str, a1: &str) -> (r: String)
+    ensures r@ == p0@ + a0@ + p1@ + a1@
+{ format!("{}{}{}{}", p0, a0, p1, a1) }
+#[verifier::external_body]
+pub fn fmt_concat6(p0: &str, a0: &str, p1: &str, a1: &str, p2: &str, a2: &str) -> (r: String)
+    ensures r@ == p0@ + a0@ + p1@ + a1@ + p2@ + a2@
+{ format!("{}{}{}{}{}{}", p0, a0, p1, a1, p2, a2) }
+#[verifier::external_body]
+pub fn fmt_concat7(p0: &str, a0: &str, p1: &str, a1: &str, p2: &str, a2: &str, p3: &str) -> (r: String)
+    ensures r@ == p0@ + a0@ + p1@ + a1@ + p2@ + a2@ + p3@
+{ format!("{}{}{}{}{}{}{}", p0, a0, p1, a1, p2, a2, p3) }
+#[verifier::external_body]
+pub fn fmt_concat9(p0: &str, a0: &str, p1: &str, a1: &str, p2: &str, a2: &str, p3: &str, a3: &str, p4: &str) -> (r: String)
+    ensures r@ == p0@ + a0@ + p1@ + a1@ + p2@ + a2@ + p3@ + a3@ + p4@
+{ format!("{}{}{}{}{}{}{}{}{}", p0, a0, p1, a1, p2, a2, p3, a3, p4) }
 
 } // verus!
